@@ -95,6 +95,11 @@ def inject(cfg, fault):
         cfg.setdefault('predefined', {}).setdefault('memory_zones', []).append({'name': 'badz', 'start': 20, 'end': 10})
     elif fault == 'zone_beyond_width':
         cfg.setdefault('predefined', {}).setdefault('memory_zones', []).append({'name': 'bigz', 'start': 20, 'end': 70000})
+    elif fault == 'zone_end_is_space_size':
+        cfg.setdefault('predefined', {}).setdefault('memory_zones', []).append({'name': 'edgez', 'start': 20, 'end': 65536})
+    elif fault == 'global_beyond_width':
+        zs = [z for z in cfg.setdefault('predefined', {}).setdefault('memory_zones', []) if z['name'] != 'GLOBAL']
+        cfg['predefined']['memory_zones'] = zs + [{'name': 'GLOBAL', 'start': 0, 'end': 65536}]
     else:
         raise ValueError(fault)
 
@@ -141,7 +146,7 @@ def load_config(path):
 def run(chk):
     quick = chk.tier == 'quick'
     chk.rule = ('spec/Config.tla: scenarios enumerated by TLC - (def) six base definition shapes (minimal, registers, macros, zones, '
-                'predefined entities, JSON file) x the fault catalogue of 20 single faults or none; (minver) general.min_version over '
+                'predefined entities, JSON file) x the fault catalogue of 22 single faults or none; (minver) general.min_version over '
                 'release triples from {0,1,2,3,4,9,10,11}^3 and two-component versions, final and a/b/rc pre-releases, against the '
                 'running 0.4.3b1 and the minimum 0.3.0; (require) #require lines: 10 required versions x 3 ISA versions x 5 operators '
                 'x name match/mismatch and the name-only form. TLC checks ValidateIffWellFormed, SingleFaultRejected, '
